@@ -397,36 +397,87 @@ def c12_structure(units, R):
             R.ob('C12S', fn, r.stmt, 'arrays compare equal only when both element cursors are exhausted', ok,
                  'facts at the return: %s' % sorted(st), key='array-length')
     R.floor('C12S', 'true returns in the array arm', n_arr, 1)
-    # objects: members looked up in both directions (or sizes compared)
+    # objects: members looked up in both directions (or sizes compared); the member walk may live in a static helper that
+    # the arm calls with the two arguments in both orders
     sw, start, region = arm_region(64)
-    lookups = []
+    LOOKUP_FNS = ('get_object_item', 'cJSON_GetObjectItem', 'cJSON_GetObjectItemCaseSensitive')
+    walks = [(fn, cfg, region, {pa['d']: pa['d'], pb['d']: pb['d']})]
     for n in cfg.nodes:
         if n.id not in region or n.expr is None:
             continue
         for c in walk(n.expr):
-            if c.get('k') == 'call' and callee_name(c) in ('get_object_item', 'cJSON_GetObjectItem', 'cJSON_GetObjectItemCaseSensitive'):
-                a0 = strip_casts(c['args'][0])
-                if a0.get('k') == 'ref':
-                    lookups.append((c, a0['d']))
-    roots = {d for (_c, d) in lookups}
+            if c.get('k') != 'call':
+                continue
+            h = u.functions.get(callee_name(c))
+            if h is None or not h.static or h.name in LOOKUP_FNS or h.name == fn.name:
+                continue
+            m = {}
+            for p, a in zip(h.params, c['args']):
+                a0 = strip_casts(a)
+                if a0.get('k') == 'ref' and a0['d'] in (pa['d'], pb['d']):
+                    m[p['d']] = a0['d']
+            if len(m) == 2:
+                hcfg = h.cfg()
+                walks.append((h, hcfg, set(x.id for x in hcfg.nodes), m))
+                # the helper's verdict must be honoured by the arm: the call is a branch condition whose false edge fails
+                nodec = node_containing(cfg, c)
+                okh = (nodec.kind == 'branch' and strip_casts(nodec.expr) is c) or \
+                    (nodec.kind == 'return' and strip_casts(nodec.expr) is c)
+                R.ob('C12S', fn, c, 'the result of %s decides the comparison' % h.name, okh, '', key='helper-result:%s' % h.name)
+    lookups = []
+    nrec = 0
+    for (F, fcfg, freg, rootmap) in walks:
+        ftrue = [r for r in fcfg.returns() if r.expr is not None and const_val(r.expr) not in (None, 0)]
+        for n in fcfg.nodes:
+            root_e = n.expr if n.expr is not None else (n.decl.get('init') if n.decl else None)
+            if n.id not in freg or root_e is None:
+                continue
+            for c in walk(root_e):
+                if c.get('k') == 'call' and callee_name(c) in LOOKUP_FNS:
+                    a0 = strip_casts(c['args'][0])
+                    if a0.get('k') == 'ref' and a0['d'] in rootmap:
+                        lookups.append((F, fcfg, freg, ftrue, c, rootmap[a0['d']]))
+        # recursion results are honoured: every recursive call is a branch condition whose false edge returns false
+        for n in fcfg.nodes:
+            if n.id not in freg and F is fn:
+                pass
+            if n.kind == 'branch':
+                e = strip_casts(n.expr)
+                if e.get('k') == 'call' and callee_name(e) == 'cJSON_Compare':
+                    nrec += 1
+                    fsucc = [y for (y, l) in fcfg.succ[n.id] if l and l[0] == 'F']
+                    ok = all(any(r.id in fcfg.reachable(y) | {y} and const_val(r.expr) == 0 for r in fcfg.returns()) and
+                             not any(r.id in fcfg.reachable(y, stop={n.id}) | {y} for r in ftrue if _straight(fcfg, y, r.id))
+                             for y in fsucc)
+                    R.ob('C12S', F, e, 'a differing element/member makes the comparison false', ok, '', key='recursion-result')
+            elif n.expr is not None and n.kind != 'branch':
+                for c in walk(n.expr):
+                    if c.get('k') == 'call' and callee_name(c) == 'cJSON_Compare':
+                        nrec += 1
+                        R.ob('C12S', F, c, 'result of the recursive comparison is tested', False,
+                             'recursive call whose result is not a branch condition', key='recursion-unused')
+    roots = {d for (_F, _c1, _r, _t, _c, d) in lookups}
     sizes = [c for n in cfg.nodes if n.id in region and n.expr is not None for c in walk(n.expr)
              if c.get('k') == 'call' and callee_name(c) == 'cJSON_GetArraySize']
     both = {pa['d'], pb['d']} <= roots
     sized = len(roots) >= 1 and len(sizes) >= 2
     R.ob('C12S', fn, None, 'objects: members are looked up in both directions (or member counts are compared)', both or sized,
          'lookups in %s' % ('both objects' if both else 'one object only: a subset would compare equal'), key='object-bidirectional')
-    # every lookup result is tested against NULL before `return true` can be reached, and fed to the recursion
-    for (c, d) in lookups:
-        par = fn.parents().get(c['id'])
+    # every lookup result is tested against NULL before `return true` can be reached
+    for (F, fcfg, freg, ftrue, c, d) in lookups:
+        par = F.parents().get(c['id'])
         while par is not None and par.get('k') == 'cast':
-            par = fn.parents().get(par['id'])
+            par = F.parents().get(par['id'])
         var = None
         if par is not None and par.get('k') == 'bin' and par['op'] == '=' and is_ref(par['l']):
             var = strip_casts(par['l'])
+        else:
+            for dcl in F.locals():
+                if 'init' in dcl and strip_casts(dcl['init']) is c:
+                    var = {'d': dcl['d'], 'n': dcl['n']}
         ok = False
         if var is not None:
-            node = node_containing(cfg, c)
-            # after the lookup, the true return is reachable only through a non-NULL edge of var
+            node = node_containing(fcfg, c)
 
             def nonnull_edge(nn, l, var=var):
                 if nn.kind != 'branch' or l is None:
@@ -443,22 +494,21 @@ def c12_structure(units, R):
             work = [node.id]
             while work:
                 x = work.pop()
-                for (y, l) in cfg.succ[x]:
-                    if nonnull_edge(cfg.nodes[x], l):
+                for (y, l) in fcfg.succ[x]:
+                    if nonnull_edge(fcfg.nodes[x], l):
                         continue
                     if y not in seen:
                         seen.add(y)
                         work.append(y)
-            # a loop back to the same lookup re-assigns var, so stop there: approximate by requiring that no true
-            # return in the object arm is reachable without passing a non-NULL edge or the lookup again
-            bad = [r for r in true_rets if r.id in seen and r.id in region and not _passes(cfg, node.id, r.id, seen)]
+            bad = [r for r in ftrue if r.id in seen and r.id in freg]
             ok = not bad
-        R.ob('C12S', fn, c, 'a member missing from the other object makes the comparison false', ok,
+        R.ob('C12S', F, c, 'a member missing from the other object makes the comparison false', ok,
              'lookup result tested against NULL' if ok else 'lookup result not tested', key='object-missing:%s' % d)
     R.floor('C12S', 'member lookups in the object arm', len(lookups), 1)
-    # recursion results are honoured: every recursive call is a branch condition whose false edge returns false
-    nrec = 0
+    # recursion in the array arm (and anything else in cJSON_Compare itself outside the object walk)
     for n in cfg.nodes:
+        if n.id in region:
+            continue
         if n.kind == 'branch':
             e = strip_casts(n.expr)
             if e.get('k') == 'call' and callee_name(e) == 'cJSON_Compare':
@@ -468,13 +518,13 @@ def c12_structure(units, R):
                          not any(r.id in cfg.reachable(y, stop={n.id}) | {y} for r in true_rets if _straight(cfg, y, r.id))
                          for y in fsucc)
                 R.ob('C12S', fn, e, 'a differing element/member makes the comparison false', ok, '', key='recursion-result')
-        elif n.expr is not None and n.kind != 'branch':
+        elif n.expr is not None:
             for c in walk(n.expr):
                 if c.get('k') == 'call' and callee_name(c) == 'cJSON_Compare':
                     nrec += 1
                     R.ob('C12S', fn, c, 'result of the recursive comparison is tested', False,
                          'recursive call whose result is not a branch condition', key='recursion-unused')
-    R.floor('C12S', 'recursive comparisons', nrec, 3)
+    R.floor('C12S', 'recursive comparisons', nrec, 2)
     # strings: NULL payloads are refused before strcmp
     for c in fn.calls():
         if callee_name(c) == 'strcmp':
